@@ -177,6 +177,12 @@ static void op_fmt(const Bytes &fmt, const std::vector<AnyArg> &args, bool nullf
         S.emplace_back("format_assume", guard([&] { return jstr(with_args(args, [&](auto &&...a) { return ST::format(ST::assume_valid, fp, a...); })); }));
         S.emplace_back("format_latin_1", guard([&] { return jstr(with_args(args, [&](auto &&...a) { return ST::format_latin_1(fp, a...); })); }));
         if (!nullfmt) S.emplace_back("_stfmt", guard([&] { return jstr(with_args(args, [&](auto &&...a) { return ST::literals::operator""_stfmt(fp, fmt.size())(a...); })); }));
+        // the formatter object of the literal, kept and invoked a second time: each call renders its own arguments
+        if (!nullfmt) S.emplace_back("_stfmt_twice", guard([&] {
+            auto fo = ST::literals::operator""_stfmt(fp, fmt.size());
+            std::vector<AnyArg> other(args.size(), mk_int(AnyArg::I32, 12345, 12345));      // the first call gets OTHER arguments
+            with_args(other, [&](auto &&...b) { try { (void)fo(b...); } catch (...) { } return 0; });
+            return jstr(with_args(args, [&](auto &&...a) { return fo(a...); })); }));
         S.emplace_back("printf_FILE", guard([&] {
             char *mem = nullptr; size_t msz = 0; FILE *fs = open_memstream(&mem, &msz);
             std::string r;
@@ -412,6 +418,28 @@ static void op_parsef(const Bytes &text) {
     o.s("}\n"); o.maybe_flush(); ++g_events;
 }
 
+// a formatter OBJECT that is kept and reused (C18): a call refused with bad_format leaves the text it held
+template <class FT> static void op_ffreuse(const char *tname, double v1, char n1, double v2, char bad) {
+    if (!SH.take()) return;
+    Out h; h.s("{").k("e").q("ffreuse").c(',').k("i").i(SH.idx - 1).c(',').k("t").q(tname).c(',').k("bad").i((unsigned char)bad);
+    set_cur(SH.idx - 1, h.b + "}");
+    ST::float_formatter<FT> ff;
+    std::string before, after, exc = "none"; long long nb = -1, na = -1;
+    try { ff.format((FT)v1, n1); before.assign(ff.text(), ff.size()); nb = (long long)ff.size(); } catch (...) { exc = "first call failed"; }
+    try { ff.format((FT)v2, bad); exc = "none"; }
+    catch (const ST::bad_format &) { exc = "bad_format"; } catch (const assert_failure &) { exc = "assert"; } catch (const std::exception &e) { exc = demangle(typeid(e).name()); }
+    after.assign(ff.text(), ff.size() < 400 ? ff.size() : 400); na = (long long)ff.size();
+    long long zlen = (long long)strnlen(ff.text(), 400);
+    Out &o = out();
+    o.s(h.b).c(',').k("exc").q(exc).c(',').k("before").s(jbytes(before)).c(',').k("after").s(jbytes(after)).c(',').k("n").i(nb).c(',').k("n2").i(na).c(',').k("z").i(zlen).s("}\n");
+    o.maybe_flush(); ++g_events;
+}
+static void gen_ffreuse() {
+    for (double v1 : {0.0, 1.5, -2.25e-7, 1e100, 123456.789}) for (char n1 : {'g', 'f', 'e', 'E'}) for (double v2 : {2.5, 1e300}) for (char bad : std::vector<char>{'q', 'd', 'x', '\0', ' ', 'a', 'H'}) {
+        op_ffreuse<double>("double", v1, n1, v2, bad); op_ffreuse<float>("float", v1, n1, v2, bad);
+    }
+}
+
 // ------------------------------------------------------------- generators ---
 static std::vector<long long> parse_list(const char *s) {
     std::vector<long long> v; if (!s) return v;
@@ -559,6 +587,13 @@ static void gen_int_layouts() {
         std::vector<uint32_t> sc; for (int i = 0; i < len; ++i) sc.push_back('a' + i);
         Bytes s = "["; s += "{"; s += al; s += pd; if (w) s += std::to_string(w); if (p >= 0) { s += '.'; s += std::to_string(p); } s += "}]";
         op_fmt(s, {mk_str(form, sc)});
+    }
+    // precision cuts at every byte position of a text holding 2-, 3- and 4-byte characters (a cut inside a character is
+    // what the sink's validation mode then has to deal with: exactly those bytes, no fewer)
+    for (AnyArg::T form : {AnyArg::S_CSTR, AnyArg::S_ST, AnyArg::S_STD, AnyArg::S_U16Z, AnyArg::S_WSTD}) for (int p = 0; p <= 13; ++p) for (const char *w : {"", "9", ">9"}) {
+        Bytes sp = "["; sp += "{"; sp += w; sp += '.'; sp += std::to_string(p); sp += "}]";
+        op_fmt(sp, {mk_str(form, {'a', 0xE9, 'b', 0x20AC, 'c', 0x1F600, 'd'})});
+        if (p <= 4) op_fmt(sp, {mk_str(form, {0xA9, 0xE9, 0xFF})});
     }
     // an argument whose own formatter calls ST::format while the outer call is running
     for (const char *lit : {"", "release ", "0123456789012345678901234567890123456789"}) for (int len : {0, 1, 4, 20, 300}) for (const char *sp : {"{}", "{>8}", "{.3}"}) {
@@ -721,6 +756,7 @@ int main(int argc, char **argv) {
     else if (gen == "parse") gen_parse(rng, count);
     else if (gen == "floats") gen_floats(rng, count, heavy);
     else if (gen == "streamio") gen_streamio(rng, count);
+    else if (gen == "ffreuse") gen_ffreuse();
     else { fprintf(stderr, "unknown generator %s\n", gen.c_str()); return 2; }
     o.flush();
     fprintf(stderr, "exec_format: inputs=%lld events=%lld\n", SH.idx, g_events);
